@@ -80,6 +80,27 @@ Proof.
   intros Ht. destruct tok as [|t0 [|t1 [|]]]; try discriminate. unfold header_bytes. cbn [le_bytes app]. reflexivity.
 Qed.
 
+Lemma idx_find_upsert_same x l : idx_find (e_key x) (idx_upsert x l) = Some x.
+Proof.
+  induction l as [|e t IH]; cbn [idx_upsert idx_find].
+  - rewrite list_eqb_refl. reflexivity.
+  - destruct (list_eqb (e_key e) (e_key x)) eqn:E.
+    + cbn [idx_find]. rewrite list_eqb_refl. reflexivity.
+    + destruct (key_ltb (e_key x) (e_key e)); cbn [idx_find]; [rewrite list_eqb_refl; reflexivity|].
+      rewrite E. exact IH.
+Qed.
+
+Lemma idx_find_upsert_other x l k : list_eqb (e_key x) k = false -> idx_find k (idx_upsert x l) = idx_find k l.
+Proof.
+  intros H. induction l as [|e t IH]; cbn [idx_upsert idx_find].
+  - rewrite H. reflexivity.
+  - destruct (list_eqb (e_key e) (e_key x)) eqn:E.
+    + cbn [idx_find]. rewrite H. apply list_eqb_eq in E. rewrite E, H. reflexivity.
+    + destruct (key_ltb (e_key x) (e_key e)); cbn [idx_find]; [rewrite H; reflexivity|].
+      destruct (list_eqb (e_key e) k); [reflexivity|exact IH].
+Qed.
+
+
 Section OneRecord.
 Variable version sector : N.
 Variable r : rec.
@@ -159,22 +180,53 @@ Qed.
 
 Variable c : rcfg.
 Variable total : N.
-Variable st st4 : rstate.
+Variable st : rstate.
 Variable jl : list (N * N).
 Variable rest' : image.
 
 Hypothesis Hrw : c_ro c = false.
 Hypothesis Hkmax : klen <= MAX_KEY_SIZE.
 Hypothesis Hin : sector + need <= total.
-Hypothesis Hnew : idx_find (r_key r) (rs_idx st) = None.
-Hypothesis Hgap : (if rs_last_end st <? sector then fs_release st (rs_last_end st) (sector - rs_last_end st) else Ok st) = Ok st4.
 
-Theorem scan_step_accepts_encoded_record :
-  scan_step c version total sector (chunk_blocks (encode_extent version sector r) (N.to_nat need) ++ rest') st jl =
-  Ok (Advance (sector + need)
-        (mkrs (idx_upsert (mkentry (r_key r) (r_ts r) (if has_expiry version then r_exp r else 0) vlen sector) (rs_idx st4))
-              (rs_fs st4) (rs_count st4 + 1) (wrap64 (rs_mem st4 + record_size c klen vlen))
-              (wrap64 (rs_disk st4 + need * FEOX_BLOCK_SIZE)) (rs_retired st4) (sector + need) (rs_ambiguous st4)) jl).
+(* what scan_step does once every check on the bytes has passed: the index decides *)
+Definition after_checks : res step_result :=
+  let key := r_key r in
+  let ts := r_ts r in
+  let exp := if has_expiry version then r_exp r else 0 in
+  let extent_end := sector + need in
+  match idx_find key (rs_idx st) with
+  | Some ex =>
+      if ts <? e_ts ex then
+        Ok (Advance extent_end (push_retired c st (sector, need)) jl)
+      else
+        let exn := extent_blocks version (N.of_nat (length (e_key ex))) (e_vlen ex) in
+        do st1 <- fs_release st (e_sector ex) exn;
+        let st2 := mkrs (rs_idx st1) (rs_fs st1) (rs_count st1)
+                        (wsub (rs_mem st1) (record_size c (N.of_nat (length (e_key ex))) (e_vlen ex)))
+                        (wsub (rs_disk st1) (exn * FEOX_BLOCK_SIZE))
+                        (rs_retired st1) (rs_last_end st1) (rs_ambiguous st1) in
+        let st3 := push_retired c st2 (e_sector ex, exn) in
+        do st4 <- (if rs_last_end st3 <? sector
+                   then fs_release st3 (rs_last_end st3) (sector - rs_last_end st3)
+                   else Ok st3);
+        Ok (Advance extent_end
+              (mkrs (idx_upsert (mkentry key ts exp vlen sector) (rs_idx st4)) (rs_fs st4)
+                    (rs_count st4) (wrap64 (rs_mem st4 + record_size c klen vlen))
+                    (wrap64 (rs_disk st4 + need * FEOX_BLOCK_SIZE))
+                    (rs_retired st4) extent_end (rs_ambiguous st4)) jl)
+  | None =>
+      do st4 <- (if rs_last_end st <? sector
+                 then fs_release st (rs_last_end st) (sector - rs_last_end st)
+                 else Ok st);
+      Ok (Advance extent_end
+            (mkrs (idx_upsert (mkentry key ts exp vlen sector) (rs_idx st4)) (rs_fs st4)
+                  (rs_count st4 + 1) (wrap64 (rs_mem st4 + record_size c klen vlen))
+                  (wrap64 (rs_disk st4 + need * FEOX_BLOCK_SIZE))
+                  (rs_retired st4) extent_end (rs_ambiguous st4)) jl)
+  end.
+
+Lemma scan_step_on_encoded :
+  scan_step c version total sector (chunk_blocks (encode_extent version sector r) (N.to_nat need) ++ rest') st jl = after_checks.
 Proof.
   destruct encode_shape as (tok & pad & Lt & ES & Tk & Tnz & EL).
   destruct need_pos as (NP & _ & _).
@@ -215,7 +267,57 @@ Proof.
   { destruct (has_token version); [|reflexivity]. rewrite TL. rewrite <- HD. rewrite WH. rewrite Tk. apply N.eqb_refl. }
   unfold scan_step. rewrite Hrw. rewrite HD.
   rewrite F1, F2, N.eqb_refl, F3, !F4, SEQ, F5. cbn [negb]. fold klen. rewrite B1. fold need. rewrite B2, OV.
-  rewrite TOK. cbn [negb]. rewrite Hnew. rewrite Hgap. cbn [bind]. reflexivity.
+  rewrite TOK. cbn [negb]. reflexivity.
+Qed.
+
+(* a key the index does not hold yet: accepted and indexed *)
+Theorem scan_step_accepts_encoded_record st4 :
+  idx_find (r_key r) (rs_idx st) = None ->
+  (if rs_last_end st <? sector then fs_release st (rs_last_end st) (sector - rs_last_end st) else Ok st) = Ok st4 ->
+  scan_step c version total sector (chunk_blocks (encode_extent version sector r) (N.to_nat need) ++ rest') st jl =
+  Ok (Advance (sector + need)
+        (mkrs (idx_upsert (mkentry (r_key r) (r_ts r) (if has_expiry version then r_exp r else 0) vlen sector) (rs_idx st4))
+              (rs_fs st4) (rs_count st4 + 1) (wrap64 (rs_mem st4 + record_size c klen vlen))
+              (wrap64 (rs_disk st4 + need * FEOX_BLOCK_SIZE)) (rs_retired st4) (sector + need) (rs_ambiguous st4)) jl).
+Proof.
+  intros Hnew Hgap. rewrite scan_step_on_encoded. unfold after_checks. rewrite Hnew, Hgap. reflexivity.
+Qed.
+
+(* newest timestamp wins, whichever generation the scan meets first.  An older generation of an
+   indexed key leaves the index as it is and is queued for retirement ... *)
+Theorem scan_step_retires_an_older_generation ex :
+  idx_find (r_key r) (rs_idx st) = Some ex -> r_ts r < e_ts ex ->
+  scan_step c version total sector (chunk_blocks (encode_extent version sector r) (N.to_nat need) ++ rest') st jl =
+  Ok (Advance (sector + need)
+        (mkrs (rs_idx st) (rs_fs st) (rs_count st) (rs_mem st) (rs_disk st) ((sector, need) :: rs_retired st)
+              (rs_last_end st) (rs_ambiguous st)) jl).
+Proof.
+  intros Hex Hlt. rewrite scan_step_on_encoded. unfold after_checks. rewrite Hex.
+  destruct (N.ltb_spec (r_ts r) (e_ts ex)); [|lia]. unfold push_retired. rewrite Hrw. reflexivity.
+Qed.
+
+(* ... a generation at least as new replaces the indexed one: its extent is released and queued for
+   retirement, the index entry of the key is the new generation, the number of keys is unchanged *)
+Theorem scan_step_replaces_by_a_newer_generation ex st1 st4 :
+  idx_find (r_key r) (rs_idx st) = Some ex -> e_ts ex <= r_ts r ->
+  let exn := extent_blocks version (N.of_nat (length (e_key ex))) (e_vlen ex) in
+  fs_release st (e_sector ex) exn = Ok st1 ->
+  let st3 := mkrs (rs_idx st1) (rs_fs st1) (rs_count st1)
+                  (wsub (rs_mem st1) (record_size c (N.of_nat (length (e_key ex))) (e_vlen ex)))
+                  (wsub (rs_disk st1) (exn * FEOX_BLOCK_SIZE))
+                  ((e_sector ex, exn) :: rs_retired st1) (rs_last_end st1) (rs_ambiguous st1) in
+  (if rs_last_end st3 <? sector then fs_release st3 (rs_last_end st3) (sector - rs_last_end st3) else Ok st3) = Ok st4 ->
+  exists st', scan_step c version total sector (chunk_blocks (encode_extent version sector r) (N.to_nat need) ++ rest') st jl =
+              Ok (Advance (sector + need) st' jl) /\
+    idx_find (r_key r) (rs_idx st') = Some (mkentry (r_key r) (r_ts r) (if has_expiry version then r_exp r else 0) vlen sector) /\
+    rs_count st' = rs_count st4 /\ rs_last_end st' = sector + need.
+Proof.
+  intros Hex Hge exn H1 st3 H4. rewrite scan_step_on_encoded. unfold after_checks. rewrite Hex.
+  destruct (N.ltb_spec (r_ts r) (e_ts ex)); [lia|]. fold exn. rewrite H1. cbn [bind].
+  unfold push_retired. rewrite Hrw. cbn [rs_idx rs_fs rs_count rs_mem rs_disk rs_retired rs_last_end rs_ambiguous]. fold st3. change (rs_last_end st3) with (rs_last_end st1) in H4. rewrite H4. cbn [bind].
+  eexists. split; [reflexivity|]. cbn [rs_idx rs_count rs_last_end]. split; [|split; reflexivity].
+  change (r_key r) with (e_key (mkentry (r_key r) (r_ts r) (if has_expiry version then r_exp r else 0) vlen sector)) at 1.
+  apply idx_find_upsert_same.
 Qed.
 
 End OneRecord.
@@ -259,26 +361,6 @@ Fixpoint distinct_keys (rs : list rec) : Prop :=
   | r :: t => (forall r', In r' t -> list_eqb (r_key r) (r_key r') = false) /\ distinct_keys t
   end.
 
-Lemma idx_find_upsert_same x l : idx_find (e_key x) (idx_upsert x l) = Some x.
-Proof.
-  induction l as [|e t IH]; cbn [idx_upsert idx_find].
-  - rewrite list_eqb_refl. reflexivity.
-  - destruct (list_eqb (e_key e) (e_key x)) eqn:E.
-    + cbn [idx_find]. rewrite list_eqb_refl. reflexivity.
-    + destruct (key_ltb (e_key x) (e_key e)); cbn [idx_find]; [rewrite list_eqb_refl; reflexivity|].
-      rewrite E. exact IH.
-Qed.
-
-Lemma idx_find_upsert_other x l k : list_eqb (e_key x) k = false -> idx_find k (idx_upsert x l) = idx_find k l.
-Proof.
-  intros H. induction l as [|e t IH]; cbn [idx_upsert idx_find].
-  - rewrite H. reflexivity.
-  - destruct (list_eqb (e_key e) (e_key x)) eqn:E.
-    + cbn [idx_find]. rewrite H. apply list_eqb_eq in E. rewrite E, H. reflexivity.
-    + destruct (key_ltb (e_key x) (e_key e)); cbn [idx_find]; [rewrite H; reflexivity|].
-      destruct (list_eqb (e_key e) k); [reflexivity|exact IH].
-Qed.
-
 Lemma need_of_pos version r : rec_ok version r -> 0 < need_of version r.
 Proof.
   intros (K0 & _ & Hf & V0 & Vm & Ts & Ex). exact (proj1 (need_pos version r K0 Hf V0 Vm Ts Ex)).
@@ -306,7 +388,7 @@ Proof.
     { destruct (N.ltb_spec (rs_last_end st) (rs_last_end st)); [lia|reflexivity]. }
     assert (Hin : rs_last_end st + extent_blocks version (N.of_nat (length (r_key r))) (N.of_nat (length (r_value r))) <= total).
     { fold (need_of version r). lia. }
-    rewrite (scan_step_accepts_encoded_record version (rs_last_end st) r K0 Hf V0 Vmax Ts Ex c total st st jl _ Hrw Kmax Hin
+    rewrite (scan_step_accepts_encoded_record version (rs_last_end st) r K0 Hf V0 Vmax Ts Ex c total st jl _ Hrw Kmax Hin st
                (Hfresh r (or_introl eq_refl)) Hgap).
     cbn [bind]. fold (need_of version r).
     destruct (N.leb_spec (rs_last_end st + need_of version r) (rs_last_end st)); [lia|].
